@@ -21,6 +21,7 @@ import (
 // equal the library string and either the exit status is non-zero or the file is exact.
 
 type c18Case struct {
+	twice      bool // an object is described twice, in places where walk order and path order may differ
 	name       string
 	docs       []Doc
 	docs2      []Doc
@@ -371,7 +372,9 @@ func c18Build(seed uint64, i int, corpus []CorpusDir, faulty bool) *c18Case {
 			c.lay = randomLayout(r, len(c.docs))
 		}
 		if r.chance(1, 5) {
+			n0 := len(c.docs)
 			c.docs, c.lay = twiceDescribed(r, c.docs, c.lay)
+			c.twice = len(c.docs) > n0
 		}
 	}
 	c.cmd, c.dir2 = "list", "b"
@@ -525,6 +528,7 @@ func runC18(tier string, seed uint64) int {
 	})
 	var bad []int
 	libErrs, written, inj, c08s, nontrivial := 0, 0, 0, 0, 0
+	twice := 0
 	byCmd := map[string]int{}
 	for i := range outs {
 		o := &outs[i]
@@ -544,6 +548,9 @@ func runC18(tier string, seed uint64) int {
 		c := o.c
 		key := c.cmd + " -o " + c.fmt
 		byCmd[key]++
+		if c.twice {
+			twice++
+		}
 		if c.exp || c.focus != "" || c.fail || c.verb != "" || c.outf != "" || c.fmt != "" {
 			nontrivial++
 		}
@@ -585,21 +592,22 @@ func runC18(tier string, seed uint64) int {
 			"distinct_nontrivial": nontrivial,
 			"rule": "one evaluation = one (directory, command line) pair run as the separately linked CLI process and as a library execution in the node; fault-free and output-path-fault batches are separate; " +
 				"a case is non-trivial when at least one flag beyond the mandatory ones is present (-o, --exposure, --focusworkload, --fail, -q/-v, -f); cases are distinct by seed-derived content",
-			"samples":                      samples,
-			"fault_free_cases":             n,
-			"output_fault_cases":           nFault,
-			"library_error_cases":          libErrs,
-			"cases_with_f_file_written":    written,
-			"syscall_faults_injected":      inj,
-			"mismatches_attributed_to_C08": c08s,
-			"commands_by_format":           byCmd,
-			"failing_cases":                len(bad),
-			"known_findings_observed":      len(rp.known),
-			"runs_per_hour":                perHour(2*total, rp.start),
-			"fault_kinds":                  "-f into a missing directory, -f at a directory, -f /dev/full, write->ENOSPC/EIO and openat->EMFILE/EACCES/EROFS on the -f target (strace seam)",
-			"simulated_time":               "none",
-			"real_components":              "cmd/netpolicy binary built from the working tree (process boundary: argv, cwd, stdout, stderr, exit status, -f file), the library through its public API",
-			"stubbed_components":           "none",
+			"samples":                              samples,
+			"fault_free_cases":                     n,
+			"output_fault_cases":                   nFault,
+			"library_error_cases":                  libErrs,
+			"cases_with_f_file_written":            written,
+			"cases_with_an_object_described_twice": twice,
+			"syscall_faults_injected":              inj,
+			"mismatches_attributed_to_C08":         c08s,
+			"commands_by_format":                   byCmd,
+			"failing_cases":                        len(bad),
+			"known_findings_observed":              len(rp.known),
+			"runs_per_hour":                        perHour(2*total, rp.start),
+			"fault_kinds":                          "-f into a missing directory, -f at a directory, -f /dev/full, write->ENOSPC/EIO and openat->EMFILE/EACCES/EROFS on the -f target (strace seam)",
+			"simulated_time":                       "none",
+			"real_components":                      "cmd/netpolicy binary built from the working tree (process boundary: argv, cwd, stdout, stderr, exit status, -f file), the library through its public API",
+			"stubbed_components":                   "none",
 		},
 		Assumptions: []string{
 			"with an output-path fault the oracle is relaxed narrowly: stdout must equal the library string, and either the exit status is non-zero or the file holds exactly those bytes",
